@@ -985,4 +985,6 @@ def run(run: Run):
     run.floor('C17.R7', 6)
     from .common import shared_mechanisms as _shared
     _shared(run, 'C17', 9, ['stored-values'])
+    from .common import shared_mechanisms as _shared_f
+    _shared_f(run, 'C17', 10, ['formulas'])
     return INFO
